@@ -87,7 +87,10 @@ ShadowFrame == [][ShadowFrameStep]_mcvars
 OutputMonotoneStep == IsPrefix(out, out') /\ (status.k # "running" => UNCHANGED vars)
 OutputMonotone == [][OutputMonotoneStep]_mcvars
 
-\* model integer range (8-bit: overflow is reachable with small literals)
-MCMinInt == -128
-MCMaxInt == 127
+\* Integer range of the replayed models.  It is wide on purpose: a replayed
+\* behaviour is compared with the 64-bit implementation, so no model program may
+\* leave the range (overflow behaviour itself is the business of SeedArith and of
+\* the zero-divisor cases, which are width-independent).
+MCMinInt == -1073741824
+MCMaxInt == 1073741823
 =============================================================================
